@@ -27,8 +27,8 @@ KNOWN_FINDINGS = os.path.join(VERIF, "known_findings.json")
 CLOCK0_NS = 1_600_000_000 * 10**9  # virtual wall clock origin
 
 
-class HarnessError(Exception):
-    pass
+class HarnessError(BaseException):
+    """Not an Exception on purpose: broad `except Exception` clauses in oracles must not swallow it."""
 
 
 # --------------------------------------------------------------------------------------
@@ -432,7 +432,7 @@ def _alarm(signum, frame):
 def _work(args):
     prop, tier, seed, i, plan, limit = args
     signal.signal(signal.SIGALRM, _alarm)
-    signal.alarm(limit)
+    signal.setitimer(signal.ITIMER_REAL, limit, 5)  # fires again every 5 s should it be swallowed
     t0 = time.time()
     try:
         if plan is None:
@@ -445,12 +445,13 @@ def _work(args):
         out["wall"] = time.time() - t0
         return out
     except HarnessError as e:
+        signal.setitimer(signal.ITIMER_REAL, 0)
         return {"i": i, "harness_error": "%s" % e, "plan": plan, "tb": traceback.format_exc()}
     except Exception as e:  # noqa
         return {"i": i, "harness_error": "%s: %s" % (type(e).__name__, e), "plan": plan,
                 "tb": traceback.format_exc()}
     finally:
-        signal.alarm(0)
+        signal.setitimer(signal.ITIMER_REAL, 0)
 
 
 def run_plan_fresh(engine_mod, info, prop, plan, limit=600):
